@@ -154,6 +154,10 @@ type hist struct {
 	gw    *bed.Gateway
 	host  string
 	tok   string
+	// gwTok is the gateway's own credential for this history's cluster, unique in the whole run and constant across the
+	// history's updates: /healthz probes are attributed by it (stub ports are ephemeral and can be re-bound by a stub of
+	// another history while a checker of a closed gateway is still probing the old address)
+	gwTok string
 	m     *model
 	np    int
 
@@ -215,7 +219,7 @@ func (h *hist) object(m *model) *proxyv1alpha1.UpstreamCluster {
 			Rules:          []proxyv1alpha1.DispatchPolicyRule{{Verbs: []string{"*"}, APIGroups: []string{"*"}, Resources: []string{fmt.Sprintf("r%d", p)}}},
 		})
 	}
-	return bed.BuildCluster(bed.ClusterSpec{Name: h.host, Servers: servers, Disabled: dis, Policies: ps})
+	return bed.BuildCluster(bed.ClusterSpec{Name: h.host, Servers: servers, Disabled: dis, Policies: ps, Token: h.gwTok})
 }
 
 func (h *hist) fail(reason string) {
@@ -272,7 +276,7 @@ func (h *hist) waitUnreadyAfterFailingProbes(e int, since int64, mode bed.Health
 		now := bed.Now()
 		old := 0
 		var ages []float64
-		for _, t := range h.stubs[e].Probes() {
+		for _, t := range h.probes(e) {
 			if t >= since {
 				ages = append(ages, float64(now-t)/1e9)
 				if now-t >= int64(6*time.Second) {
@@ -370,14 +374,14 @@ func (h *hist) closeInterval(di *disInt, to int64) {
 	// in "close" mode at any time from 5 s before the sync on, only probes later than timeout + settle are judged.
 	if h.modeActive(di.stub, bed.HealthClose, di.from-int64(probeTimeout+settle), to) {
 		lo = di.from + int64(probeTimeout+settle)
-		for _, t := range h.stubs[di.stub].Probes() {
+		for _, t := range h.probes(di.stub) {
 			if t > di.from+int64(settle) && t < to && t <= lo {
 				h.r.Count("observation_probe_retries_of_an_in_flight_check_after_disable", 1)
 			}
 		}
 	}
 	var late, all, pokes []float64
-	for _, t := range h.stubs[di.stub].Probes() {
+	for _, t := range h.probes(di.stub) {
 		if t > lo && t < to {
 			late = append(late, float64(t-di.from)/1e6)
 		}
@@ -655,7 +659,15 @@ func (h *hist) genChange(g *vkit.Rand, allowHang bool, tickerWait bool) *change 
 	return &change{Kind: "resync", after: after, run: func() bool { return h.apply(after) }}
 }
 
+// probes returns the instants of the /healthz probes stub e received from THIS history's gateway.
+func (h *hist) probes(e int) []int64 { return h.stubs[e].ProbesFrom(h.gwTok) }
+
 func (h *hist) close() {
+	for _, s := range h.stubs {
+		if n := s.StrayProbeCount(h.gwTok); n > 0 {
+			h.r.Count("observation_stray_probes_from_other_histories", n)
+		}
+	}
 	h.gw.Close()
 	for _, s := range h.stubs {
 		s.Close()
@@ -667,6 +679,7 @@ func newHist(r *vkit.R, id, k int) *hist {
 	for i := 0; i < k; i++ {
 		h.stubs = append(h.stubs, bed.NewStub(fmt.Sprintf("h%d-s%d", id, i)))
 	}
+	h.gwTok = fmt.Sprintf("gwt-c03-%d-%s", id, h.host)
 	h.gw = bed.NewGateway(bed.GatewayOptions{}).Start()
 	h.tok = h.gw.Tokens.Add(&user.DefaultInfo{Name: "c03-user", Groups: []string{"system:authenticated"}})
 	return h
@@ -902,11 +915,11 @@ func hungProbeScenario(r *vkit.R, id int, g *vkit.Rand) {
 		return
 	}
 	ep := h.endpoint(1)
-	n0 := h.stubs[1].ProbeCount()
+	n0 := len(h.probes(1))
 	h.setMode(1, bed.HealthHang)
 	m.Mode[1] = "hang"
 	ep.TriggerHealthCheck()
-	if !vkit.WaitFor(watchdog, func() bool { return h.stubs[1].ProbeCount() > n0 }) {
+	if !vkit.WaitFor(watchdog, func() bool { return len(h.probes(1)) > n0 }) {
 		h.fail("triggered probe did not reach the stub")
 		return
 	}
@@ -1060,8 +1073,8 @@ func disableRacingProbes(r *vkit.R, id int, g *vkit.Rand, iters int) {
 				runtime.Gosched()
 			}
 		default:
-			n0 := h.stubs[0].ProbeCount()
-			vkit.WaitFor(time.Second, func() bool { return h.stubs[0].ProbeCount() > n0 })
+			n0 := len(h.probes(0))
+			vkit.WaitFor(time.Second, func() bool { return len(h.probes(0)) > n0 })
 		}
 		if !h.apply(dis) {
 			return
